@@ -560,7 +560,7 @@ uint32_t node_copy(const void* addr, uint32_t src_vid)
     auto ins = t->live.emplace(addr, vid);
     if (!ins.second) { ++o->ctor_over_live; ins.first->second = vid; log_event(K_LEDGER_BAD, 1, vid); }
     ++o->n_copy;
-    if (o->in_call) ++o->copy_in_lib;
+    if (o->in_call && o->own_copy_depth == 0) ++o->copy_in_lib;
     log_event(K_COPY, vid, src_vid);
     return vid;
 }
@@ -630,7 +630,7 @@ void trivial_copy()
     OpRec* o = ledger_op();
     if (!o) return;
     ++o->n_copy;
-    if (o->in_call) ++o->copy_in_lib;
+    if (o->in_call && o->own_copy_depth == 0) ++o->copy_in_lib;
     log_event(K_COPY, 0, 0);
 }
 
@@ -644,6 +644,8 @@ void node_lvalue_arg(uint32_t vid)
 }
 
 void set_alloc_tracking(bool) {}
+void own_copies(int delta) { OpRec* o = cur(); if (o) o->own_copy_depth += delta; }
+int64_t copies_so_far() { OpRec* o = cur(); return o ? o->n_copy : 0; }
 void functor_enter() { OpRec* o = cur(); if (o) ++o->functor_depth; }
 void functor_leave() { OpRec* o = cur(); if (o && o->functor_depth > 0) --o->functor_depth; }
 int64_t task_live(int task) { return int64_t(g_tasks[task].live.size()); }
